@@ -6,7 +6,7 @@ ROOT = os.path.normpath(os.path.join(os.path.dirname(os.path.abspath(__file__)),
 LEAN = os.path.join(ROOT, "lean")
 HARNESS = os.path.join(ROOT, "harness")
 RUN = os.path.join(ROOT, "run")
-REPO = "/repo"
+REPO = os.environ.get("VERIF_REPO", "/repo")
 DRIVER = os.path.join(LEAN, ".lake", "build", "bin", "chewing-model")
 ACCEPTED_AXIOMS = ["propext", "Classical.choice", "Quot.sound"]
 
@@ -64,6 +64,7 @@ def build_lean(cfg, log):
     """returns dict(proof_ok, driver_ok, output)"""
     res = {}
     targets = list(cfg.get("lean_targets", []))
+    sh([sys.executable, os.path.join(ROOT, "tools", "gen_glue.py")], timeout=60)
     rc, out, dt = sh(["lake", "build", "chewing-model"], cwd=LEAN, timeout=3600)
     res["driver_ok"] = rc == 0
     res["driver_out"] = out[-3000:] if rc else ""
@@ -80,6 +81,7 @@ def build_harness(cfg, log):
     if not bins:
         return True, ""
     shutil.copyfile(os.path.join(REPO, "Cargo.lock"), os.path.join(HARNESS, "Cargo.lock"))
+    sh([sys.executable, os.path.join(ROOT, "tools", "gen_glue.py")], timeout=60)
     cmd = ["cargo", "build", "--offline", "--quiet"]
     feats = sorted({f for r in cfg.get("runs", []) for f in r.get("features", [])})
     if feats:
@@ -219,7 +221,7 @@ def main(argv):
         rc, out, dt = sh([sys.executable, os.path.join(ROOT, "tools", "extract.py")] + ex, timeout=600)
         log(f"extract {ex}: rc={rc} {dt:.1f}s")
         try:
-            status = json.load(open(os.path.join(LEAN, "Chewing", "Gen", "status.json")))
+            status = json.load(open(os.path.join(RUN, "extract-status.json")))
         except Exception:
             status = {}
         translator_broken = [n for n in ex if not status.get(n, {}).get("ok")]
